@@ -10,10 +10,8 @@ import (
 // <= N bytes and every flag set: they return a Go regex source or a non-empty diagnostic list,
 // never a Go panic, and always terminate.
 func VX_C03_regex_transpile() {
-	n := vxSplit("len", 3)
-	if vxTier() == 1 {
-		n = vxSplit("len", 4)
-	}
+	vxTerminates(64)
+	n := vxSplit("len", 3+vxTier()) // 0..2 bytes (quick), 0..3 bytes (thorough)
 	pat := vxString("pat", n)
 	flags := bitfield.BitField8FromInt(vxUint8("flags"))
 	out, err := Transpile(pat, flags)
